@@ -272,7 +272,7 @@ def main():
         notes="Technique family: static analysis only. Exit 0 = all obligations discharged; 1 = VIOLATION lines; "
               "2 = analysis broken (anchor vanished / shape not recognised) - never a pass. Genuine defects repaired in "
               "/repo by 'fix:' commits are listed in known_findings.json. Every check decides its rules twice per run: for the "
-              "default build configuration and for {CBOR_BUFFER_GROWTH=3, CBOR_MAX_STACK_SIZE=5, CBOR_PRETTY_PRINTER=0} (thorough: two "
+              "default build configuration and for {CBOR_BUFFER_GROWTH=3, CBOR_MAX_STACK_SIZE=5, CBOR_PRETTY_PRINTER=0, -funsigned-char} (thorough: two "
               "more), so that code the default build does not compile or that is right for the default constants only is judged too. "
               "Rules shared between properties (capacity-field, narrowing, no-access-after-free, record-items, insertion refusals, "
               "guard semantics, ...) are listed per property in DESIGN.md 10.8. tools/regress.py re-runs all %d behaviour-preserving "
